@@ -67,6 +67,7 @@ class Sched:
                 continue
             if main_task.done():
                 break
+            self.waiters = [w for w in self.waiters if not w[1].done()]  # parked tasks that were cancelled meanwhile
             if self.on_quiescent is not None:
                 self.on_quiescent(self)
             if not self.waiters:
@@ -111,7 +112,7 @@ class Hold(AsyncEventProcessor):
 
 
 def run_scheduled(ctx, graph, values, choices=(), *, adversarial=False, runner=None, processors=(), park_starts=True,
-                  method="run", on_quiescent=None, pre=None, **kw):
+                  method="run", on_quiescent=None, pre=None, pre_inside=None, **kw):
     """Run graph on AsyncRunner under the harness scheduler.  Returns (Outcome, Sched).  Deadlock -> Outcome('deadlock')."""
     sched = Sched(choices, adversarial=adversarial, park_starts=park_starts)
     sched.on_quiescent = on_quiescent
@@ -124,7 +125,15 @@ def run_scheduled(ctx, graph, values, choices=(), *, adversarial=False, runner=N
         fn = getattr(runner, method)
         if pre is not None:
             await pre(runner)  # earlier calls awaited from the SAME task (context variables are inherited by `main`)
-        main = asyncio.ensure_future(fn(graph, dict(values), event_processors=[*processors, hold], **kw))
+        if pre_inside is not None:
+            # an earlier call made from the same task and under the same scheduler (its node bodies park like everybody's)
+            async def both():
+                await pre_inside(runner, hold)
+                return await fn(graph, dict(values), event_processors=[*processors, hold], **kw)
+
+            main = asyncio.ensure_future(both())
+        else:
+            main = asyncio.ensure_future(fn(graph, dict(values), event_processors=[*processors, hold], **kw))
         return await sched.drive(main)
 
     try:
